@@ -5,6 +5,8 @@ import NA.Proofs.C05Whole
 import NA.Proofs.C05Resume
 import NA.Proofs.C05Equiv
 import NA.Proofs.C05Device
+import NA.Proofs.C05Config
+import NA.Proofs.C05Stable
 /-!
 # C05 — Linux approve converges for static routes and iptables
 
@@ -20,13 +22,14 @@ False of the unchanged code, with witness and complement:
   (`iptables_replace_converges_counterexample`, F-C05t); proved otherwise: `…_partial`.
 * `kernel_roundtrip` — false when an option key repeats (`kernel_roundtrip_counterexample`, F-C05m);
   proved for the grammar under `RuleOK`: `kernel_roundtrip_partial`.  (It was also false for an
-  un-negated `--syn`, F-C05s — repaired in /repo, now covered: `kernel_roundtrip_syn`.)
+  un-negated `--syn`, F-C05s — repaired in /repo, now covered by `opt_roundtrip`, see the example.)
 * `iptables_diff_iff` — false for a table with the empty name (`iptables_diff_iff_counterexample`);
   proved when no name is empty: `iptables_diff_iff_partial`.
 * `kernel_roundtrip` is also false for a MARK with a non-default mask (`kernel_roundtrip_mask_counterexample`,
   F-C05k); such options are outside `AOpt.wf`.
-* `normalize_idempotent` — false in general (`normalize_idempotent_counterexample`); proved on
-  stable maps: `normalize_idempotent_partial`.
+* `normalize_idempotent` for arbitrary maps — false (`normalize_idempotent_counterexample`); proved on
+  stable maps (`normalize_idempotent_partial`) and, hypothesis discharged from `RuleOK`, for every rule of
+  the class (`normalize_stable_of_ruleOK`, `normalize_idempotent`).
 * `normalize_sound` — false for a repeated option key (`normalize_sound_counterexample`); what equal
   normal forms do imply: `normalize_sound_partial`.
 -/
@@ -184,6 +187,24 @@ particular `normalize (normalize p) ≈ normalize p` whenever `normalize p` is s
 theorem normalize_idempotent_partial (p : Pairs) (h : Stable (normalize p)) :
     PairsEq (normalize (normalize p)) (normalize p) := normalize_of_stable _ h
 
+/-- The hypothesis is discharged from the counted predicate: for every rule with `RuleOK` the normal
+form of what the kernel prints is stable … -/
+theorem normalize_stable_of_ruleOK (cfg : KCfg) (r : ARule) (H : RuleOK cfg r) :
+    Stable (normalize (pairsOf (kernelOpts cfg r) [])) :=
+  ruleOK_stable cfg r H
+
+/-- … so `normalizeIPTables` is idempotent on everything the class admits (the device's spelling, and
+through `normalize_complete` the target's normal form as well, up to map equality). -/
+theorem normalize_idempotent (cfg : KCfg) (r : ARule) (H : RuleOK cfg r) :
+    PairsEq (normalize (normalize (pairsOf (kernelOpts cfg r) []))) (normalize (pairsOf (kernelOpts cfg r) [])) :=
+  normalize_idempotent_ruleOK cfg r H
+
+/-- `strconv.ParseInt(strconv.FormatInt(i, 10), 0, 32)` gives `i` back for every 32-bit integer (the
+step that makes a decimal mark a fixed point of the rewriting). -/
+theorem parseInt_formatInt (i : Int) (hlo : -2147483648 ≤ i) (hhi : i < 2147483648) :
+    parseInt32 (intToStr i) = some i :=
+  parseInt32_intToStr i hlo hhi
+
 /-- In general normalisation is not idempotent: `-p VRRP -m 112` keeps `-m` in the first pass
 (`112` ≠ `VRRP`) and drops it in the second (`-p` is `112` by then). -/
 theorem normalize_idempotent_counterexample :
@@ -261,10 +282,10 @@ theorem kernel_roundtrip_mask_counterexample :
       getA (s "--set-mark") (normalize pk) ≠ getA (s "--set-mark") (normalize pu) :=
   ⟨{}, [.jump (s "MARK"), .setMark (s "10") (s "f0") false (s "0x10/0xf0")], _, _, rfl, rfl, by decide⟩
 
-/-- An un-negated `--syn`, which the kernel prints as `--tcp-flags FIN,SYN,RST,ACK SYN`, is inside the
-grammar since the repair of F-C05s (before it the device's map had `--tcp-flags`, the target's `--syn`). -/
-theorem kernel_roundtrip_syn : RuleOK {} [.jump (s "ACCEPT"), .proto .no .tcp false false, .syn false false] := by
-  decide
+/-- Example (not an obligation; the general statement is `opt_roundtrip` for every `.syn n f`): an
+un-negated `--syn`, which the kernel prints as `--tcp-flags FIN,SYN,RST,ACK SYN`, is inside the class
+since the repair of F-C05s. -/
+example : RuleOK {} [.jump (s "ACCEPT"), .proto .no .tcp false false, .syn false false] := by decide
 
 /-! ## iptables: the whole table, at the text level -/
 
@@ -352,6 +373,35 @@ theorem device_second_compare_empty (cfg : KCfg) (a : AState) (h : AStateOK cfg 
       (diffConfig dc { routes := b, iptables := mkTables userOpts a }).ipt = .same :=
   device_compare_unchanged cfg a h l hl b hb
 
+/-- **`ParseConfig` on the whole target file**: split at newlines, trim, drop empty and comment lines,
+route lines to `parseRoutes`, the rest to `parseIPTables` — for any file of clean lines … -/
+theorem parseConfig_whole_file (L : List Str) (h : ∀ x ∈ L, LineOK x) :
+    parseConfig (unlines L) = (do
+      let routes ← parseRoutes (L.filter isRouteLine)
+      let tb ← parseIPTables (L.filter fun l => !isRouteLine l)
+      pure { routes := routes, iptables := tb }) :=
+  parseConfig_lines L h
+
+/-- … and for a target file made of route lines and the text of a rule set inside the class the result
+is exactly `{ routes, iptables := mkTables userOpts a }`. -/
+theorem parseConfig_target_file (cfg : KCfg) (a : AState) (h : AStateOK cfg a) (rl : List Str) (b : List Route)
+    (hrl : ∀ x ∈ rl, LineOK x ∧ isRouteLine x = true) (hb : parseRoutes rl = .ok b) :
+    parseConfig (unlines (rl ++ userText a)) = .ok { routes := b, iptables := mkTables userOpts a } :=
+  parseConfig_target cfg a h rl b hrl hb
+
+/-- The second compare on the device path from the three raw texts (target file, `iptables-save`,
+`ip route show`): no route command, no iptables difference. -/
+theorem device_second_compare_empty_text (cfg : KCfg) (a : AState) (h : AStateOK cfg a) (l : List RouteEntry)
+    (hl : ∀ e ∈ l, e.ok) (rl : List Str) (b : List Route)
+    (hrl : ∀ x ∈ rl, LineOK x ∧ isRouteLine x = true) (hb : parseRoutes rl = .ok b)
+    (hk : ∀ k, k ∈ l.map RouteEntry.key ↔ k ∈ keys b) :
+    ∃ ch, compareDevice (unlines (saveText cfg (sortS a))) (unlines (l.map RouteEntry.show))
+        (unlines (rl ++ userText a)) = .ok ch ∧ ch.routes = [] ∧ ch.ipt = .same :=
+  compareDevice_unchanged cfg a h l hl rl b hrl hb hk
+
+example : LineOK (s "ip route add 10.1.11.0/24 via 10.10.1.6") ∧ isRouteLine (s "ip route add 10.1.11.0/24 via 10.10.1.6") = true :=
+  ⟨⟨by decide, by decide, ⟨'i', rfl, by decide⟩⟩, by decide⟩
+
 /-- Before the repair of F-C05c the first line of every real `iptables-save` output made the device
 path abort: the old parser (no case for `#`) fell into `Unknown command`.  Witness for the model
 of the repaired code: the comment line is skipped. -/
@@ -419,10 +469,12 @@ def obligations : List Lean.Name := [
   ``normalize_idempotent_partial, ``normalize_idempotent_counterexample,
   ``normalize_sound_partial, ``normalize_sound_counterexample,
   ``kernel_roundtrip_partial, ``kernel_roundtrip_no_diff,
-  ``kernel_roundtrip_counterexample, ``kernel_roundtrip_mask_counterexample, ``kernel_roundtrip_syn,
+  ``kernel_roundtrip_counterexample, ``kernel_roundtrip_mask_counterexample,
   ``opt_roundtrip, ``parsePairs_words, ``getA_normalize,
   ``linux_routes_resume, ``linux_routes_resume_cmds, ``route_show_roundtrip, ``iptables_table_idempotent, ``iptables_parse_text,
   ``device_routes_roundtrip, ``device_iptables_parse, ``device_second_compare_empty, ``device_comment_line_skipped,
+  ``normalize_stable_of_ruleOK, ``normalize_idempotent, ``parseInt_formatInt,
+  ``parseConfig_whole_file, ``parseConfig_target_file, ``device_second_compare_empty_text,
   ``normalize_sound, ``normalize_complete, ``normalize_injective_on_kernel, ``iptables_same_only_if_equivalent]
 
 end NA.C05
